@@ -227,11 +227,20 @@ def parse_tsan(err):
         frames = [l.strip() for l in lines if l.strip().startswith("#") and "/src/" in l and "/harness/" not in l]
         if not frames:
             continue
+        import re
+        m = re.search(r"Location is global '([^']+)'", rep)
+        if m:
+            key = "global:" + m.group(1)
+        else:
+            # order-independent: the functions on top of the two racing stacks (first in-repo frame of each stack)
+            tops = []
+            for block in rep.split("\n\n")[:2]:
+                fr = [l.strip() for l in block.split("\n") if l.strip().startswith("#") and "/src/" in l and "/harness/" not in l]
+                if fr:
+                    body = fr[0].split(" ", 1)[1] if " " in fr[0] else fr[0]
+                    tops.append(body.split(" /")[0].split("(")[0].strip()[-60:])
+            key = "+".join(sorted(set(tops))) or "unknown"
         f0 = frames[0]
-        body = f0.split(" ", 1)[1] if " " in f0 else f0          # drop the "#N" prefix
-        fn = body.split(" /")[0].split("(")[0].strip()[-60:]
-        loc = f0.split("/src/")[-1].split(" ")[0].split(":")[0] if "/src/" in f0 else ""
-        key = fn + "@" + loc.split("/")[-1]
         out.append((key, (frames[0] + " vs " + (frames[1] if len(frames) > 1 else "?"))[:300]))
     seen, uniq = set(), []
     for k, w in out:
